@@ -1,5 +1,6 @@
 import BrushVerif.Proofs.Expand
 import BrushVerif.Proofs.Pattern
+import BrushVerif.Proofs.WordParse
 /-!
 # C04 — quoted expansions arrive byte-exact: never re-split, re-globbed or re-parsed
 
@@ -288,5 +289,128 @@ example : fullExpand { vars := [("x".toList, "a b".toList), ("x".toList, "* old"
       [.plain (.base (.param (.named "x".toList)))] =
     fullExpand { vars := [("x".toList, "a b".toList)] } {} ["q".toList] [.plain (.base (.param (.named "x".toList)))] :=
   (expansion_reads_only_visible_state _ _ (sameView_shadow {} _ _ _) _ _ _).1
+
+/-! ## The word parser (`brush-parser/src/word.rs`) — `Model/WordParse.lean`
+
+`WordParse.parseWord` mirrors `word::parse` with the default parser options on a fragment (everything else answers
+`unsup`); `tools/c04.py` compares it with the real parser on every word up to length 5 over a 16-character alphabet.
+The parser model is a total function of the word alone: determinism and purity hold by construction. -/
+section WordParser
+open BrushVerif.WordParse
+
+/-- Spans tile the word: the pieces `word::parse` returns are in order, adjacent, non-empty and cover `[0, len)`
+(byte offsets) — no byte of the word is dropped and none is read twice. -/
+theorem parsed_spans_tile_the_word (w : Str) (ps : List SP) (h : parseWord w = .ok ps) :
+    Tiles 0 (blen w) (ps.map fun x => (x.s, x.e)) := by
+  have hs := skipN_ok (w.length + 1)
+  have body : ∀ (s : Str) (qs : List SP) (r : Str), blen s ≤ blen w →
+      wordGo (skipN (w.length + 1)) false (blen w) (s.length + 1) s = .ok (qs, r) →
+      Tiles (blen w - blen s) (blen w) (qs.map fun x => (x.s, x.e)) := by
+    intro s qs r hle hh
+    have := wordGo_tiles _ hs false _ _ s qs r hle hh
+    have hr := this.2.2 rfl
+    rw [hr] at this
+    simpa [blen] using this.2.1
+  unfold parseWord at h
+  simp only at h
+  split at h
+  · rename_i r
+    have hc := blen_cons_lt '~' r
+    split at h
+    · simp at h
+    · split at h
+      · rename_i t r' ht
+        have := tildeExpr_le _ _ _ ht
+        split at h
+        · rename_i qs r'' hh
+          simp only [Res.ok.injEq] at h
+          rw [← h]
+          simp only [List.cons_append, List.nil_append, List.map_cons, Tiles]
+          exact ⟨trivial, by omega, body r' qs r'' (by omega) hh⟩
+        · simp at h
+        · simp at h
+      · split at h
+        · rename_i qs r'' hh
+          simp only [Res.ok.injEq, List.nil_append] at h
+          rw [← h]
+          simpa using body _ qs r'' (Nat.le_refl _) hh
+        · simp at h
+        · simp at h
+  · split at h
+    · rename_i qs r'' hh
+      simp only [Res.ok.injEq, List.nil_append] at h
+      rw [← h]
+      simpa using body _ qs r'' (Nat.le_refl _) hh
+    · simp at h
+    · simp at h
+
+/-- non-vacuity: a tilde prefix, a two-byte character, nested quotes and `${v:-"a b"}` -/
+example : parseWord "~/é\"x\\$${u:-\"a b\"}\"'q'".toList = .ok
+    [⟨.atom (.tilde .home), 0, 1⟩, ⟨.atom (.text "/é".toList), 1, 4⟩,
+     ⟨.dq [⟨.text "x".toList, 5, 6⟩, ⟨.esc "\\$".toList, 6, 8⟩,
+           ⟨.paramOp (.named "u".toList) true "-".toList "\"a b\"".toList, 8, 19⟩], 4, 20⟩,
+     ⟨.atom (.sq "q".toList), 20, 23⟩] := by decide
+
+/-- The spans inside a closed double-quoted sequence tile the text between the quotes. -/
+theorem double_quoted_inner_spans_tile (n tot k : Nat) (s : Str) (inner : List SA) (r : Str)
+    (hle : blen s ≤ tot) (h : dqGo (skipN n) tot k s = .ok (inner, r)) :
+    Tiles (tot - blen s) (tot - (blen r + 1)) (inner.map fun x => (x.s, x.e)) :=
+  (dqGo_tiles _ (skipN_ok n) tot k s inner r hle h).2
+
+/-- Inside `'…'` nothing is special: whatever the body contains (backslashes, `$`, `"`, newlines…), the piece is
+the body verbatim and parsing resumes right after the closing quote. -/
+theorem single_quotes_hide_everything (skip : Str → Res Str) (stop : Bool) (tot : Nat) (body rest : Str)
+    (hb : '\'' ∉ body) :
+    wordOne skip stop tot '\'' (body ++ '\'' :: rest) = .ok (.atom (.sq body), rest) := by
+  have key : takeUntil '\'' (body ++ '\'' :: rest) = some (body, rest) := by
+    induction body with
+    | nil => simp [takeUntil]
+    | cons c cs ih =>
+      have hc : c ≠ '\'' := fun e => hb (by simp [e])
+      have := ih (fun m => hb (List.mem_cons_of_mem _ m))
+      simp [takeUntil, hc, this]
+  simp [wordOne, key]
+
+example : wordOne (skipN 3) false 9 '\'' "a\\$\"b' c".toList = .ok (.atom (.sq "a\\$\"b".toList), " c".toList) :=
+  single_quotes_hide_everything _ _ _ "a\\$\"b".toList " c".toList (by decide)
+
+/-- An unquoted backslash followed by any character `c` is always exactly one escape piece for that `c`
+(two characters of source), whatever follows and whatever the stop character is. -/
+theorem unquoted_backslash_escapes_one_char (skip : Str → Res Str) (stop : Bool) (tot : Nat) (c : Char) (r : Str) :
+    wordOne skip stop tot '\\' (c :: r) = .ok (.atom (.esc ['\\', c]), r) := by
+  simp [wordOne]
+
+/-- Inside `"…"` a backslash is an escape only before `$`, backquote, `"` and `\`; before any other character it
+stays in the text, followed by that character. -/
+theorem double_quoted_backslash (skip : Str → Res Str) (d : Char) (r : Str) :
+    (isDqEscapable d = true → dqOne skip '\\' (d :: r) = .ok (.esc ['\\', d], r)) ∧
+    (isDqEscapable d = false →
+      dqOne skip '\\' (d :: r) = .ok (.text ('\\' :: d :: (dqRun r).1), (dqRun r).2)) := by
+  constructor
+  · intro h; simp [dqOne, h]
+  · intro h
+    have h' := h
+    simp only [isDqEscapable, Bool.or_eq_false_iff, decide_eq_false_iff_not] at h'
+    simp only [dqOne, h, dqRun, h'.1.1.1, h'.1.1.2, h'.1.2]
+    have hb := h'.2
+    simp
+    split <;> simp_all
+
+example : dqOne (skipN 1) '\\' "a\\\"".toList = .ok (.text "\\a".toList, "\\\"".toList) := by decide
+
+/-- `$name` never starts with a digit: after `$`, a digit `1`..`9` is a positional parameter of exactly one digit. -/
+theorem dollar_digit_is_one_positional (skip : Str → Res Str) (inDq : Bool) (c : Char) (r : Str)
+    (hc : isDigit c = true) (h0 : c ≠ '0') :
+    dollar skip inDq (c :: r) = .ok (.param (.pos (c.toNat - 48)), r) := by
+  have h1 : c ≠ '\'' := by intro e; rw [e] at hc; revert hc; decide
+  have h2 : c ≠ '[' := by intro e; rw [e] at hc; revert hc; decide
+  have h3 : c ≠ '`' := by intro e; rw [e] at hc; revert hc; decide
+  have h4 : c ≠ '"' := by intro e; rw [e] at hc; revert hc; decide
+  have h5 : c ≠ '(' := by intro e; rw [e] at hc; revert hc; decide
+  have h6 : c ≠ '{' := by intro e; rw [e] at hc; revert hc; decide
+  unfold dollar
+  split <;> simp_all
+
+end WordParser
 
 end BrushVerif.C04
